@@ -103,14 +103,18 @@ def make_unit():
                  r'pub fn parse_long_tag\(p: &mut LuaDocParser\).*?\{ unimplemented!\(\) \}\n',
                  '// (the ASSUMED shims of parse_tag / parse_long_tag are replaced by the real grammar below)\n', tmpl, 'cut parse_tag shims')
 
-    # ---- 2. the driver invariant, strengthened in its TkEof arm (see items.DINV_DOC): driver_spec.rs is read from unit c01_doc and patched
+    # ---- 2. the driver invariant, strengthened by two conjuncts (see items.DINV_DOC / DINV_DOC2): driver_spec.rs is read from unit c01_doc and patched
     with open(os.path.join(VERIF, 'units', 'c01_doc', 'driver_spec.rs'), encoding='utf-8') as f:
         dspec = f.read()
     m = re.findall(r'LuaTokenKind::TkEof => lx_done\(l\) && p\.origin_token_index == t\.len\(\) - 1 && rend\(p\.current_token_range\) == span_hi\(t\),', dspec)
     if len(m) != 1:
         raise Undecided('c02_gdoc: the TkEof arm of dinv (units/c01_doc/driver_spec.rs) was not found exactly once')
     dspec = dspec.replace(m[0], m[0][:-1] + '\n            && is_char_boundary(l.origin_text.spec_bytes(), p.current_token_range.start_offset as int), // (c02_gdoc: ' + _it.DINV_DOC + ')')
-    tmpl = _once(r'^[ \t]*//@@include c01_doc/driver_spec\.rs[ \t]*$', '// ---- units/c01_doc/driver_spec.rs with the TkEof arm of dinv strengthened\n' + dspec, tmpl,
+    h = re.findall(r'pub open spec fn dinv\(p: &LuaDocParser\) -> bool \{\s*let t = p\.tokens@;\s*let l = &p\.lexer;\s*&&& dbase\(p\)\n', dspec)
+    if len(h) != 1:
+        raise Undecided('c02_gdoc: the head of dinv (units/c01_doc/driver_spec.rs) was not found exactly once')
+    dspec = dspec.replace(h[0], h[0] + '    &&& (l.reader is None ==> quiet_kind(p.current_token)) // (c02_gdoc: ' + _it.DINV_DOC2 + ')\n')
+    tmpl = _once(r'^[ \t]*//@@include c01_doc/driver_spec\.rs[ \t]*$', '// ---- units/c01_doc/driver_spec.rs (read from that unit on every run) with `dinv` strengthened by the two conjuncts marked (c02_gdoc: ..)\n' + dspec, tmpl,
                  'include driver_spec', flags=re.M)
 
     # ---- 3. marker API: contracts of unit c01_parser (with events_ok), plus set_kind / precede / empty / is_invalid
@@ -140,6 +144,12 @@ def make_unit():
             elif k == 'proof+': it['proof'] = list(it.get('proof', [])) + list(v)
             elif k == 'body_first+': it['body_first'] = (it.get('body_first', '') + '\n' + v).strip()
             elif k == 'loops=': it['loops'] = v
+            elif k == 'loops+':
+                # one more invariant clause in loops of the base overlay (inserted after the `invariant` keyword)
+                for idx, extra in v.items():
+                    new, n = re.subn(r'(?<!\w)invariant(?!\w)', 'invariant\n        ' + extra.strip().rstrip(',') + ',', it['loops'][idx], count=1)
+                    if n != 1: raise Undecided('c02_gdoc: loop %d of %s has no `invariant` keyword' % (idx, key))
+                    it['loops'][idx] = new
             else: raise Undecided('c02_gdoc: unknown driver extension key ' + k)
 
     # ---- 5. the grammar
@@ -176,7 +186,7 @@ def make_unit():
                 rules = list(cfg.get('rules', []))
                 sh = X.fn_shape(X.find_item(repo, item['src']).raw)
                 if sh.loops and pk == 'mut':
-                    rules.append(('ghost-loop-prelude', {'ghost': _it.GB, 'count': len(sh.loops)}))
+                    rules.append(('ghost-loop-prelude', {'ghost': _it.GL, 'count': len(sh.loops)}))
                 if rules: item['rules'] = rules
                 bf = cfg.get('body_first')
                 if bf is None and pk == 'mut': bf = _it.B0
@@ -184,6 +194,9 @@ def make_unit():
                 for k in ('loops', 'proof', 'attrs', 'iter_names', 'extra_sig', 'default_rules', 'vac'):
                     if k in cfg: item[k] = cfg[k]
                 if 'attrs' not in item and pk == 'mut': item['attrs'] = '#[verifier::spinoff_prover]'
+                # vacuity guard: the precondition `gram_pre(old(p))` alone is guarded once (parse_tag, and the base unit's parse_comment ...);
+                # fns with additional requires clauses get their own guard
+                if std and not cfg.get('requires') and n != 'parse_tag' and 'vac' not in item: item['vac'] = False
                 if cfg.get('decreases'): item['decreases'] = cfg['decreases']
                 elif rank is not None: item['decreases'] = 'rem(old(p)), %dint /*@C02.doc.recursion-terminates*/' % rank
                 proved.append(n)
